@@ -29,6 +29,7 @@ RULE = ('one evaluation = one seeded run: 4-20 values drawn from the picklable d
         'that applies (get, [], read, peek, peekitem, Deque/Index element access; after a simulated restart; then pop/pull/popitem); in '
         'the fault batch one file-system call of the store fails or the source stream raises; oracle: type-and-structure equality, or '
         'an exception and no trace of the key; non-trivial = at least one file-backed value round-tripped; distinct = SHA-256 of the case')
+RULE += ' ' + 'Value files opened unbuffered accept at most 4096 bytes per write() call (a short write, reported in the return value).'
 ASSUMPTIONS = ['this property is mostly a function of the input; the simulator contributes the stream, fault and restart dimensions, the value sweep is generative differential testing on the same runs',
                'JSONDisk is exercised with JSON-stable values only (no tuples, no byte strings, no streams)']
 PROBES = ('file_backed', 'stream_values', 'short_reads', 'rejected_values', 'restart_reads', 'oserr', 'chunk_boundary', 'shared_or_cyclic_values', 'real_file_streams', 'returned_value_mutated')
